@@ -85,6 +85,18 @@ CHECKS = {
             'Every registered AI with witness values of its declared format, alone and in all ordered pairs of format classes, with '
             'each separator and parentheses setting: info(validate(x)) == info(x), validate fixed point, info(encode(info(x))) == info(x).',
             'Witness values are generated from the GS1 format notation (vp/refs/gs1_witness.py).', 'DESIGN.md 2/C16'),
+    'C13': ('E4', 'explicit-state exploration of call histories on fresh library states + preemption-bounded exhaustive thread-schedule exploration under a controlled scheduler, on the real code',
+            'All histories of length <=2 over a focus menu with colliding cache keys/registry names (with and without in-place mutation '
+            'of the previous result), call/mutate/call for every container-returning function, ordered module pairs, clock-advance '
+            'histories; two threads racing on first use of every cache (all interleavings at line granularity up to 2 preemptions) and '
+            'on module import (1 preemption); every observation equals the pristine observation.',
+            'Fresh interpreter modelled by purging stdnum modules (cross-checked against real subprocesses); 2 threads; scheduling points '
+            'only in the cache functions / module top-level code.', 'DESIGN.md 2/C13'),
+    'C18': ('E4', 'exhaustive enumeration of requests and request histories / first-request schedules on the real WSGI callable',
+            'Both modes x query-string classes x every seed of every module x hostile single edits x markup marker splices; each focus '
+            'request fresh and after every other focus request; two first requests under the scheduler; status 200, exact format list '
+            '(independent module walk), escaped echo, no injected markup, history independence.',
+            'The template\'s unclosed script elements are parsed as ordinary elements.', 'DESIGN.md 2/C18'),
 }
 
 NOT_YET = {}
